@@ -693,10 +693,14 @@ Definition agree_graph (k : case) : bool :=
   | [] => match k_graph k with [] => true | _ => false end
   | _ => grows_eqb (graph_rows (graph_build 0 (k_root k) (k_tids k) (k_stream k))) (k_graph k)
   end.
-Definition agree_flame0 (k : case) : bool :=
-  lines_eqb (map flame_text (flame_lines 0 (graph_build 0 [] (k_tids k) (k_stream k)))) (k_flame0 k).
-Definition agree_flameS (k : case) : bool :=
-  lines_eqb (map flame_text (flame_lines (k_sample k) (graph_build (k_sample k) [] (k_tids k) (k_stream k)))) (k_flameS k).
+(* [fixed]: the count of a flame line is printed in full (the code after proposed fix C15-2);
+   the tie finds out which of the two the tree under test does from the dedicated witness *)
+Definition flame_text_v (fixed : bool) (l : list N * N) : list N :=
+  if fixed then flame_text_full l else flame_text l.
+Definition agree_flame0 (fixed : bool) (k : case) : bool :=
+  lines_eqb (map (flame_text_v fixed) (flame_lines 0 (graph_build 0 [] (k_tids k) (k_stream k)))) (k_flame0 k).
+Definition agree_flameS (fixed : bool) (k : case) : bool :=
+  lines_eqb (map (flame_text_v fixed) (flame_lines (k_sample k) (graph_build (k_sample k) [] (k_tids k) (k_stream k)))) (k_flameS k).
 Definition agree_dot (k : case) : bool :=
   lines_eqb (dot_lines (graph_build 0 (k_root k) (k_tids k) (k_stream k))) (k_dot k).
 Definition agree_mermaid (k : case) : bool :=
